@@ -67,6 +67,34 @@ fn main() {
     }
     checked += 1;
     if run(&["nosuch/tool"], cwd()).is_ok() { println!("FAIL: a missing path with a slash was resolved by searching PATH"); bad += 1; }
+    // a name that is on no PATH entry is not found -- also when a file of that name sits in the child's working directory
+    script(&root.join("cwd/onlyincwd"), "cwdonly", 0o755);
+    checked += 1;
+    match Popen::create(&["onlyincwd"], PopenConfig { stdout: Redirection::Pipe, ..cwd() }) {
+        Ok(mut p) => { let _ = p.wait(); println!("FAIL: a name found on no PATH entry was started from the child's working directory"); bad += 1; }
+        Err(subprocess::PopenError::IoError(e)) if e.raw_os_error() == Some(libc::ENOENT) => {}
+        Err(e) => { println!("FAIL: a name found on no PATH entry must fail with ENOENT, got {:?}", e); bad += 1; }
+    }
+    // the error reported is that of the last candidate tried: a non-executable file under the only PATH entry gives EACCES
+    script(&dirs[0].join("noexec"), "x", 0o644);
+    checked += 1;
+    match Popen::create(&["noexec"], PopenConfig::default()) {
+        Ok(mut p) => { let _ = p.wait(); println!("FAIL: a non-executable file was started"); bad += 1; }
+        Err(subprocess::PopenError::IoError(e)) if e.raw_os_error() == Some(libc::EACCES) => {}
+        Err(e) => { println!("FAIL: a non-executable candidate must be reported as EACCES, got {:?}", e); bad += 1; }
+    }
+    // the search uses the PARENT's PATH; a PATH variable in the environment handed to the child does not redirect the lookup
+    script(&dirs[1].join("tool"), "childpath", 0o755);
+    script(&dirs[1].join("onlychild"), "childpath", 0o755);
+    let child_env = || Some(vec![(std::ffi::OsString::from("PATH"), dirs[1].clone().into_os_string())]);
+    for (what, got, want) in vec![
+        ("the child's own PATH does not redirect the lookup", run(&["tool"], PopenConfig { env: child_env(), ..Default::default() }), Some("onpath")),
+        ("a program only on the child's PATH is not found", run(&["onlychild"], PopenConfig { env: child_env(), ..Default::default() }), None),
+    ] {
+        checked += 1;
+        let ok = match (&got, want) { (Ok(g), Some(w)) => g.starts_with(w), (Err(_), None) => true, _ => false };
+        if !ok { println!("FAIL: {}: expected {:?}, got {:?}", what, want, got); bad += 1; }
+    }
     let _ = fs::remove_dir_all(&root);
     println!("{} lookups checked, {} mismatches", checked, bad);
     if bad > 0 { std::process::exit(1); }
